@@ -8,6 +8,10 @@ ids = [p["id"] for p in props]
 
 # id -> (engine, technique, level text, level note, design ref)
 CHECKS = {
+ "C20": ("E1", "stateless exploration of environment answers of a model KMS client (page lengths, polls, service errors) with deviation bounding on the real gcpkms Signer and Manager; exhaustive single-bit corruption of signing responses; small-scope exhaustive enumeration of all rings and all paging behaviours with the page-size constant rewritten to 3",
+         "(a) 587 signing responses (every bit of signature and checksum, missing checksum, cleared verified flags, truncated/empty signature) and 5 option sets; (b) with the real page size 100: bootstrap and wipeout on ~500 (thorough ~4000) rings of N in {0,1,99,100,101,199,200,201} versions with <=1 (2) positions deviating over 7 states, every page-length choice within 1 (2) deviations and a service error at each call; rotation with k-poll generation; (c) in a second binary whose page-size constant is 3: all 1365 (thorough 21845) rings of <=5 (7) versions over {ENABLED, DISABLED, DESTROYED, PENDING} with every legal paging behaviour (full choice tree), for bootstrap and for wipeout over four keys. A returned signature implies an intact, confirmed PSS/SHA-256 exchange; bootstrap returns an ENABLED version when one exists else a pending one; rotation returns only ENABLED; wipeout leaves nothing ENABLED/DISABLED; every loop ends within a call-count horizon.",
+         "Trusted: the model KMS encodes the documented List contract; the small-scope argument (loops are parametric in the page-size constant); time.After is replaced by a virtual clock through the overlay (rule 'clock').",
+         "DESIGN.md#c20"),
  "C16": ("E1", "exhaustive enumeration of the product of evidence sources and environment answers (event log variants, quote formats, provider, getter outcomes, forced fetch) on the real extract.Endorsement with recording doubles; exhaustive small-domain enumeration of object names and of UEFI variable names under a scratch efivarfs root; parse-back of emitted events",
          "All 2160 combinations of 10 event-log situations x 9 supplied quotes x 4 provider behaviours x 3 getter behaviours x forced fetch run through extract.Endorsement; every requested URL must be derived from a 48-byte measurement of the supplied evidence (or be the log's URI locator), the bucket root or a placeholder-measurement URL is never requested, and unambiguous local evidence is returned byte for byte with no network access unless forced. Object names are checked for injectivity and technology separation over all measurements of <=2 bytes and 385 48-byte values; 258 (thorough 1554) UCS-2 variable names x 3 GUIDs are resolved under a scratch root with symlinks and sentinel files outside; events emitted for 4 digests must parse back to one FirmwareRIM variable locator and one digest-derived URI locator under one manifest GUID.",
          "Trusted: an event-log URI locator is treated as a legitimate network target; injectivity beyond the enumerated measurements follows from hex encoding; the emitted-events sub-check needs the overlay export.",
@@ -85,7 +89,7 @@ CHECKS = {
          "Trusted: the scripted VersionControl/ChangeOps double (snapshot-per-workspace, conflict on moved head) models a real VCS; budgets above 3 are not explored (the loop is parametric in the budget).",
          "DESIGN.md#c14"),
 }
-NA_REASON = "check not built yet in this session (work in progress; see DESIGN.md section 7 for the order of work)"
+NA_REASON = "not claimed"
 
 def main():
     checks = []
